@@ -1093,6 +1093,9 @@ class Sym:
         """`v.k` where the multi-definition local v holds, on the current path, a tuple/struct literal
         (`let (a, b) = match x { .. => (e1, e2), .. }`): the component term, else None"""
         b = strip(t[1])
+        b = self.norm_try(b)
+        if b[0] == "aggr" and b[1] == "tuple" and isinstance(t[2], int) and t[2] < len(b[2]):
+            return b[2][t[2]]                 # `(e1, e2).k` (the Ok payload of an expanded helper)
         if b[0] != "var" or self.path_blocks is None or ("tc", b[1]) in self._busy_vars:
             return None
         try:
@@ -1470,7 +1473,24 @@ class Sym:
                     self._busy_vars.discard(("tc", strip(t[1])[1]))
             if t[2] == 0 and strip(t[1])[0] == "downcast" and strip(t[1])[2] == "Ok":
                 return "%s?" % self.name(strip(t[1])[1])        # Ok payload: the value of `X?`
-            return "%s.%d" % (self.name(t[1]), t[2])
+            nb_ = self.name(t[1])
+            if nb_.startswith("tuple{") and nb_.endswith("}") and isinstance(t[2], int):
+                # a component of a tuple this path has just built (the payload of an expanded helper's `Ok((a, b))`)
+                parts, dep_, cur_ = [], 0, ""
+                for ch in nb_[6:-1]:
+                    if ch in "([{":
+                        dep_ += 1
+                    elif ch in ")]}":
+                        dep_ -= 1
+                    if ch == "," and dep_ == 0:
+                        parts.append(cur_)
+                        cur_ = ""
+                    else:
+                        cur_ += ch
+                parts.append(cur_)
+                if t[2] < len(parts):
+                    return parts[t[2]]
+            return "%s.%d" % (nb_, t[2])
         if k == "try":
             kp_ = self.known_payload(t[1])
             if kp_ is not None:
